@@ -262,7 +262,7 @@ inductive Tbl | models | metadata
 inductive LayoutDamage | drop | alien | noPk | delCreated | delPrune
   deriving DecidableEq, Repr
 
-inductive FileDamage | delete | empty | text | header
+inductive FileDamage | delete | empty | text | header | freelist
   deriving DecidableEq, Repr
 
 inductive Op
@@ -292,9 +292,13 @@ def damageLayout (t : Tbl) (how : LayoutDamage) : DbFile → DbFile
     | .metadata, .delPrune => .db m (match mt with | some (.ok c _) => some (.ok c none) | o => o)
     | .metadata, .noPk => .db m mt
 
+/-- `freelist`: a header field is changed so that the file still opens and its tables can be read, but
+    `PRAGMA integrity_check` answers rows other than `ok` (no exception) — `parse` then raises the
+    `DatabaseError` itself.  (Abstraction: such a file is `garbage`; the harness lets this damage happen only
+    when the process does not hold the database initialised, where the two coincide.) -/
 def damageFile : FileDamage → DbFile
   | .delete | .empty => .db none none
-  | .text | .header => .garbage
+  | .text | .header | .freelist => .garbage
 
 def damageEntry (x : TextId) (v : Ver) (b : Blob) (f : DbFile) : DbFile :=
   match f.queryable with
